@@ -1125,10 +1125,14 @@ def gen_inputs(tier, rng):
         pre = rng.sample(dsq, rng.randint(1, 4))
         post = sorted(set(pre[:2] + rng.sample(dsq, rng.randint(1, 3))))
         yield {"op": "dsderive", "cfg": cfg, "pre_reads": pre, "derivs": derivs, "post_reads": post}
-    for k in range(120 if big else 14):
+    for k in range(120 if big else 18):
         H, W = rng.randint(2, 4), rng.randint(2, 4)
-        via = rng.choice(["simulator", "simulator", "poisson", "gaussian", "interferometer"])
-        seed = rng.choice([1, 2, 7, 12345, rng.randint(0, 10 ** 6)]) if k % 7 else -1
+        vias = ["simulator", "poisson", "gaussian", "interferometer"]
+        if k < 4:          # boundary seed 0 (a valid fixed seed, the smallest one) through every seeded entry point
+            via, seed = vias[k], 0
+        else:
+            via = rng.choice(vias + ["simulator"])
+            seed = rng.choice([0, 1, 2, 7, 12345, 2 ** 32 - 1, rng.randint(0, 10 ** 6)]) if k % 7 else -1
         yield {"op": "seed", "via": via, "shape": [H, W], "image": [rng.randint(1, 30) for _ in range(H * W)],
                "exposure": rng.choice([10.0, 100.0, 300.0]), "sky": rng.choice([0.0, 1.0]), "psf": rng.random() < 0.5 and H >= 3 and W >= 3,
                "seed": seed, "states": [rng.randint(0, 10 ** 6) for _ in range(3)]}
